@@ -116,6 +116,7 @@ def main():
     lengths()
     inplace_addsub()
     sum_and_index()
+    keytolist()
     print('EXPR-COUNT ' + json.dumps(count))
     print('EXPR-JSON ' + json.dumps(fails))
 
@@ -297,6 +298,38 @@ def sum_and_index():
         except Exception as e:
             fail('index-refuses', {'function': nm, 'key': '[]',
                                    'raised': repr(e)})
+
+
+def keytolist():
+    """_keytolist(key, n) against Python's own indexing of range(n)"""
+    from cvxopt.modeling import _keytolist
+    for n in (0, 1, 2, 5):
+        ref = list(range(n))
+        keys = list(range(-n - 2, n + 3))
+        keys += [[a, b] for a in range(-n - 1, n + 2)
+                 for b in range(-n - 1, n + 2)]
+        keys += [[], [0] * 3 if n else [], [-1, -1, 0] if n else []]
+        for key in keys:
+            try:
+                want = [ref[key]] if isinstance(key, int) else \
+                    [ref[k] for k in key]
+            except IndexError:
+                want = IndexError
+            keep = list(key) if isinstance(key, list) else key
+            try:
+                got = _keytolist(key, n)
+            except IndexError:
+                got = IndexError
+            except Exception as e:
+                got = repr(e)
+            count['keytolist'] = count.get('keytolist', 0) + 1
+            if got != want or (isinstance(key, list) and (key != keep or
+                                                          got is key)):
+                fail('key-value', {'key': repr(keep), 'n': n, '_keytolist':
+                                   'IndexError' if got is IndexError else
+                                   repr(got), 'expected': 'IndexError' if
+                                   want is IndexError else repr(want),
+                                   'key afterwards': repr(key)})
 
 
 def aliasing():
